@@ -163,3 +163,52 @@ Theorem C13_offset_next_complete :
       get_next E (POffset q off None) st (n1 + off) = (Ok v, st') -> earliest_after P n1 (v - off).
 Proof. exact offset_next_complete. Qed.
 Print Assumptions C13_offset_next_complete.
+
+(* ---- the tie to the source by translation: coq/gen/GenProd.v is regenerated from src/eascheduler/producers/*.py and
+   helpers/time_replace.py on every run (tools/gen_prod.py); these theorems are re-checked against it.  [pknot E n] is
+   the generated code closed by dispatch on the class of the object; [lift] reads a model answer as an outcome of the
+   generated code (value + producer state / exception / out of fuel). *)
+From EAS Require GenRtProd GenProdEq.
+Theorem C13_generated_source_recognised : EASGen.GenProd.gen_prod_status_v = EASGen.GenProd.GenProdOk.
+Proof. exact GenProdEq.gen_prod_recognised. Qed.
+Print Assumptions C13_generated_source_recognised.
+(* the four apply_operation bodies as generated *)
+Theorem C13_generated_offset_apply : forall E R fuel off n dt s,
+  EASGen.GenProd.g_offset_apply E R fuel off n dt s = GenRtProd.lift (Ok (n + off), s).
+Proof. exact GenProdEq.gen_offset_apply_eq. Qed.
+Print Assumptions C13_generated_offset_apply.
+Theorem C13_generated_earliest_apply : forall E R fuel,
+  (forall tr day s, GenRtProd.r_replace R tr day s = Some (s, GenRtProd.of_rres (replace (pz E) tr day))) ->
+  forall tr n dt s, EASGen.GenProd.g_earliest_apply E R fuel tr n dt s = GenRtProd.lift (apply_earliest (pz E) tr n dt, s).
+Proof. exact GenProdEq.gen_earliest_apply_eq. Qed.
+Print Assumptions C13_generated_earliest_apply.
+Theorem C13_generated_latest_apply : forall E R fuel,
+  (forall tr day s, GenRtProd.r_replace R tr day s = Some (s, GenRtProd.of_rres (replace (pz E) tr day))) ->
+  forall tr n dt s, EASGen.GenProd.g_latest_apply E R fuel tr n dt s = GenRtProd.lift (apply_latest (pz E) tr n dt, s).
+Proof. exact GenProdEq.gen_latest_apply_eq. Qed.
+Print Assumptions C13_generated_latest_apply.
+(* jitter: the bounds of the model, one draw, the draw counter advanced *)
+Theorem C13_generated_jitter_apply : forall E R fuel lo hi n dt s,
+  EASGen.GenProd.g_jitter_apply E R fuel lo hi n dt s =
+  GenRtProd.lift (let '(a, b) := jitter_bounds lo hi n dt in
+                  (Ok (n + draw E (ndraws s) a b), with_ndraws (S (ndraws s)) s)).
+Proof. exact GenProdEq.gen_jitter_apply_eq. Qed.
+Print Assumptions C13_generated_jitter_apply.
+(* the loop of the base class around them: the whole expression *)
+Theorem C13_generated_producers_are_model : forall E n p, wf_producer p -> (GenProdEq.rank p <= n)%nat ->
+  forall dt st, GenRtProd.r_get_next (GenProdEq.pknot E n) p dt st = GenRtProd.lift (get_next E p st dt).
+Proof. exact GenProdEq.gen_get_next_is_model. Qed.
+Print Assumptions C13_generated_producers_are_model.
+Theorem C13_generated_offset_exact : forall E n q off f st dt v st',
+  wf_producer q -> (GenProdEq.rank (POffset q off f) <= n)%nat ->
+  GenRtProd.r_get_next (GenProdEq.pknot E n) (POffset q off f) dt st = Some (st', GenRtProd.PRet v) ->
+  exists m, inner_answer E q dt m /\ v = m + off /\ dt < v /\ allow_opt (pz E) f v = true.
+Proof. exact GenProdEq.gen_offset_exact. Qed.
+Print Assumptions C13_generated_offset_exact.
+Theorem C13_generated_earliest_clamp : forall E n q tr f st dt v st',
+  wf_producer q -> (GenProdEq.rank (PEarliest q tr f) <= n)%nat ->
+  GenRtProd.r_get_next (GenProdEq.pknot E n) (PEarliest q tr f) dt st = Some (st', GenRtProd.PRet v) ->
+  exists m, inner_answer E q dt m /\ apply_earliest (pz E) tr m dt = Ok v /\ m <= v /\ dt < v /\
+            allow_opt (pz E) f v = true.
+Proof. exact GenProdEq.gen_earliest_clamp. Qed.
+Print Assumptions C13_generated_earliest_clamp.
